@@ -383,6 +383,9 @@ class Sym:
     def __copy__(self):
         return self
 
+    def item(self):
+        return self
+
 
 def _nonfinite(x):
     return isinstance(x, float) and (x != x or x in (math.inf, -math.inf))
